@@ -89,6 +89,49 @@ CLAIMED = {
                 "f-string procfs paths.",
         "technique": "typestate pairing, who-may-open, handler tables",
     },
+    "C02": {
+        "text": "Decides that __eq__/__hash__/__ne__ are functions of the one identity "
+                "tuple, that the tuple and the cached creation time are never re-bound "
+                "after construction, and - by a transitive global-read / call effect "
+                "analysis of _get_ident() with constant-argument context - that the "
+                "Linux identity reads no module global that is re-assigned after import "
+                "and no wall-clock source (boot_time, time.time). is_running()'s sticky "
+                "early-False and publication of recycled PIDs. Start-time resolution and "
+                "real recycling are not decided.",
+        "note": "Trusted: the wall-clock source table (boot_time <- btime, time.time); "
+                "callee resolution; one level of constant-argument context.",
+        "technique": "effect analysis (transitive global reads/calls), single-writer "
+                     "attribute checks",
+    },
+    "C04": {
+        "text": "Decides: pids()/process_iter() order by def-use from sorted(); Linux "
+                "pids() digit filter; pid_exists() totality for ints via exception-"
+                "escape analysis (per-process errno and argument-conversion origins), "
+                "negative/zero handling by dominance; process_iter()'s cache steps "
+                "(copy, drop gone, drain recycled, add new, NoSuchProcess removes, "
+                "re-bind in a finally enclosing every yield, attrs -> .info, "
+                "cache_clear) and absence of in-place mutation of the published map. "
+                "Real table changes and thread schedules are not exercised.",
+        "note": "Trusted: primitive raise table; CFG/dominators; recognition of the "
+                "copy-then-rebind idiom.",
+        "technique": "def-use, exception-escape analysis, CFG dominance, try/finally "
+                     "enclosure",
+    },
+    "C10": {
+        "text": "Decides: every access to the three wrap-history maps holds the "
+                "instance lock (lexically or at every call site); the update rule has "
+                "the documented shape (reminder += OLD exactly under new < old, keyed "
+                "by (device, index); out = new + reminder; raw tuple for first call / "
+                "new key; new snapshot becomes the baseline on every later path); dead "
+                "devices purged before comparing; cache_clear covers all maps; "
+                "distinct constant history names bound consistently by the cache_clear "
+                "partials; nowrap=False bypass. From that shape monotonicity follows "
+                "by the inductive step recorded as an assumption; schedules are not "
+                "explored.",
+        "note": "Trusted: non-negative raw counters; the rule-template matcher; lock "
+                "coverage is lexical + call-site based.",
+        "technique": "lock-coverage analysis, CFG dominance, rule-template match",
+    },
 }
 
 NOT_APPLICABLE = {}
